@@ -152,7 +152,7 @@ PrefixSums(f, n) ==
 \* (an index outside pos or finger is a run-time panic in Go)
 Place(vs, f, npos) ==
   LET F[i \in 0..Len(vs)] ==
-        IF i = 0 THEN [f |-> f, pos |-> [x \in 0..(npos - 1) |-> -1], panic |-> FALSE]
+        IF i = 0 THEN [f |-> f, pos |-> [x \in 0..(npos - 1) |-> 0], panic |-> FALSE]
         ELSE LET st == F[i - 1]
                  p == vs[i][1]
                  km == vs[i][2]
